@@ -246,9 +246,10 @@ class Out:
                 val = helper.uri(val)
             elif 'HASH' == type_:
                 val = self.ser._hash(val)
-            elif hasattr(val, 'cssText'):
+            elif hasattr(type(val), 'cssText'):
+                # (do not evaluate the property just to see if it is there)
                 val = val.cssText
-            elif hasattr(val, 'mediaText'):
+            elif hasattr(type(val), 'mediaText'):
                 val = val.mediaText
             elif val in '+>~,:{;)]/=}' and not alwaysS:
                 self._remove_last_if_S()
